@@ -27,10 +27,14 @@ import proto
 from core import Case
 
 PID = "C20"
-LEAN_MODULES = ["MirProofs.Props.C20"]
+LEAN_MODULES = ["MirProofs.Props.C20", "MirProofs.Props.C20_GenIO"]
+# the loaders are regenerated from mir_eval/io.py (harness/translate/ioload.py -> lean/MirGen/IOLoad.lean) and
+# Props/C20_GenIO.lean proves every regenerated loader equal to the loader model
+TRANSLATOR_PARTS = ["ioload"]
 RULE = ("generated annotation files per loader (values: finite doubles incl. exponents, negatives, subnormals, "
         "in repr / %.17g / exact-decimal / short forms; labels: unicode without newlines, blanks inside the last "
-        "column, '#' not in column 0; delimiters \\s+ , tab ; and literal strings; comment markers # % // ; None; "
+        "column, '#' not in column 0; delimiters \\s+ , tab ; and literal strings; comment markers # % // ; None "
+        "and (oracle only) alternations of two markers such as '#|%' with the second marker inside labels; "
         "LF / CRLF; with and without final newline) and single-fault corruptions; non-trivial = at least one "
         "data row or a fault")
 ASSUMPTIONS = [
@@ -41,6 +45,9 @@ ASSUMPTIONS = [
     "warnings are checked by the oracle on the real code, not by the model",
 ]
 UNPROVED = [
+    "the regenerated loaders (MirGen/IOLoad.lean) read `with _open(f, mode='r')` as 'the lines of the text' and skip the "
+    "validate-then-warn blocks; the translator (harness/translate/ioload.py) and its run-time library "
+    "(MirModel/PyIO.lean) are trusted, exercised by the gen_io.* suites",
     "path vs open file object: not modelled (the model takes the text); checked by the harness on every case",
     "float(str) / repr(float) bit-exact round trip: CPython's, trusted; cross-checked against Fraction->float",
     "validate-then-warn: warnings are outside the model; the oracle checks them on the real code",
@@ -966,6 +973,28 @@ ALL_LOADERS = ["load_delimited"] + [k for k in LOADERS] + ["load_ragged_time_ser
 SUITES = {l: _suite(l) for l in ALL_LOADERS}
 
 
+def _gen_suite(loader):
+    """the loader as REGENERATED from the source (driver op `gen.io`, lean/MirGen/IOLoad.lean) against the real one, on the
+    same file generators (well-formed files, single faults, comments, blank lines, delimiters inside the last field,
+    header=True): exercises the translator's reading of io.py; arguments in the order of the Python parameters"""
+    def gen(rng, tier, shard, nshards):
+        nv, nf = (100, 80) if tier == "quick" else (600, 400)
+        if loader == "load_ragged_time_series":
+            cases = ragged_cases(rng, nv, nf)
+        elif loader == "load_patterns":
+            cases = pattern_cases(rng, nv, nf)
+        else:
+            cases = table_cases(rng, loader, nv, nf)
+        for c in cases:
+            yield Case("gen.io", [loader] + list(c.args), c.call, tol=c.tol, tag=c.tag, info=c.info,
+                       nontrivial=c.nontrivial, post=c.post)
+    return gen
+
+
+for _l in ALL_LOADERS:
+    SUITES["gen_io." + _l] = _gen_suite(_l)
+
+
 # ----------------------------------------------------------------------------------------
 # the property on the real code alone
 
@@ -1017,6 +1046,27 @@ def _bad_events(rng):
     return [2.0, 1.0]
 
 
+def _regex_comment_input(rng, loader, kinds):
+    """`comment` is documented as a regular expression: an alternation of two literal markers.  Lines BEGINNING with
+    either marker are comments; a data row that merely CONTAINS a marker (inside its label) is data."""
+    a, b = rng.choice([("#", "%"), ("%", "#"), ("//", ";"), ("#", "!"), ("!", "//")])
+    delim = rng.choice([r"\s+", r"\s+", ",", "\t"])
+    lines = gen_table(rng, kinds, rng.choice([1, 2, 3, 6]), delim, None, comments_ok=False, simple_labels=True)
+    out = []
+    for l in lines:
+        if rng.random() < 0.3:
+            out.append(Line("comment", text=rng.choice([a, b]) + rng.choice(["", " note", " 1 2 x"])))
+        lab = gen_word(rng, [",", "\t"]) + rng.choice([a, b]) + rng.choice(["", gen_word(rng, [",", "\t"])])
+        l.tokens[-1] = lab
+        l.cells[-1] = lab
+        out.append(l)
+    params = {"delim": delim, "comment": a + "|" + b}
+    if loader == "load_delimited":
+        params["kinds"] = kinds
+    return _inp(loader, render_lines(rng, out), params, {"kind": "value", "value": expected_of(loader, kinds, out)},
+                "regex_comment")
+
+
 def oracle_table(loader):
     kinds_fixed = LOADERS.get(loader)
 
@@ -1029,6 +1079,9 @@ def oracle_table(loader):
             if loader == "load_delimited":
                 kinds = [rng.choice(["float", "str"]) for _ in range(rng.choice([1, 1, 2, 2, 3, 3, 4, 6]))]
                 params["kinds"] = kinds
+            if kinds and kinds[0] == "float" and kinds[-1] == "str" and rng.random() < 0.08:
+                yield _regex_comment_input(rng, loader, kinds)
+                continue
             mode = rng.choice(["valid", "valid", "valid", "fault", "fault", "convention"])
             if loader == "load_key":
                 yield from _oracle_key(rng, delim, comment, params, mode)
